@@ -232,6 +232,9 @@ def run_sequence(ctx, kind, ctor_dtype, wrapper, seq):
                  "varswap": lambda: VarianceSwap(prim, maturity=2 * prim.dt), "spread": lambda: Spread(prim, prim2, maturity=2 * prim.dt)}[wrapper]()
         target = deriv
         label = f"{wrapper}({label})"
+        if prim2 is not None and not (deriv.ul() is prim and deriv.ul(0) is prim and deriv.ul(1) is prim2):
+            ctx.violation(mon, "underlier_index", "ul(i) is not the i-th registered underlier", sig=(label,))
+            return
     done = []
     persist = {}
     simulated = cast_seen = False
